@@ -162,13 +162,21 @@ Section Enc.
 
   Definition member (label value : bytes) : bytes := label ++ 58 :: value.
 
+  (* encodeAny copies the stored j5_json text into the document only when it is one JSON value in
+     valid UTF-8 (json.Valid && utf8.Valid = the strict reader, stream CValid); otherwise it fails *)
+  Definition stored_json (js : bytes) : outcome bytes :=
+    match strict_parse js with
+    | Some _ => Ok js
+    | None => Err "stored j5_json is not a JSON document"
+    end.
+
   Definition enc_any (pb : bool) (m : msg) : outcome bytes :=
     obind (field_bytes 1 m) (fun tn0 =>
     let tn := if pb then trim_prefix any_prefix tn0 else tn0 in
     let j5json := if pb then None else
                   match msg_get 3 m with Some (VBytes s) => Some s | _ => None end in
     obind (match j5json with
-           | Some js => Ok js
+           | Some js => stored_json js
            | None => obind (field_bytes 2 m) (fun pbytes => any_inner tn pbytes)
            end) (fun data =>
     obind (escape txt_type) (fun l1 =>
